@@ -22,6 +22,7 @@ from fsmc.design import MachineryError
 from checks.c20_ref import fr, search, verify, WIDE, NARROW, _s
 from checks import c20_families as F
 from checks.c20_families import Req
+from checks import c20_efinix as FE
 
 PROPERTY = "C20"
 LEVEL = "exploration"
@@ -76,12 +77,13 @@ def families():
     from litex.soc.cores.clock.gowin_gw2a import GW2APLL
     from litex.soc.cores.clock.gowin_gw5a import GW5APLL
     from litex.soc.cores.clock.colognechip import GateMatePLL
+    from litex.soc.cores.clock.efinix import TRIONPLL, TITANIUMPLL
     fams = [F.Xilinx(S6PLL), F.Xilinx(S6DCM), F.Xilinx(S7PLL, vco_margin=0.1), F.Xilinx(S7MMCM), F.Xilinx(USPLL),
             F.Xilinx(USMMCM), F.Xilinx(USPPLL), F.XilinxUSPMMCM(USPMMCM),
             F.Intel(CycloneIVPLL, vco_margin=0.1), F.Intel(CycloneVPLL), F.Intel(Cyclone10LPPLL), F.Intel(Max10PLL),
             F.Intel(StratixVPLL),
             F.ECP5(ECP5PLL), F.ICE40(iCE40PLL), F.NX(NXPLL), F.Gowin1(GW1NPLL), F.Gowin1(GW2APLL), F.Gowin5(GW5APLL),
-            F.NXOsc(NXOSCA), F.GowinOsc(GW1NOSC), F.GateMate(GateMatePLL)]
+            F.NXOsc(NXOSCA), F.GowinOsc(GW1NOSC), F.GateMate(GateMatePLL), FE.Efinix(TRIONPLL), FE.Efinix(TITANIUMPLL)]
     return {f.name: f for f in fams}
 
 
@@ -328,7 +330,103 @@ class GateMateGrid:
             yield Req(fin, [(50e6, 0, 0), (50e6, 0, 0)])          # same port twice: must be refused
 
 
+class EfinixGrid:
+    """TRIONPLL: input grid over the window the PFD range and N = 1..15 allow (both ends, 0.1 % outside, typical clocks) x
+    1..3 outputs x output menu^n x margin tuples x phase tuples x WHICH output is the feedback (every index), plus
+    per-input structural points (fin/15, fin/16: the last legal and the first illegal pre-divider; 2*fin, 3/4*fin) and a
+    few requests without a feedback output (pass-through).  The class's tables ignore the device, so in the quick tier
+    only the first device gets the whole grid, the others a light one (sizes Z).  A refused request costs the helper a
+    complete scan (50 ms), which is what bounds the quick grid.
+    TITANIUMPLL: pass-through requests only (1..5 outputs)."""
+    IN = dict(quick=[25e6, 100e6, 400e6],
+              thorough=[12e6, 25e6, 27e6, 33.333e6, 50e6, 74.25e6, 100e6, 125e6, 200e6, 400e6, 800e6])
+    Z = dict(
+        quick=dict(n1=7, n2=3, n3=3, awk3=False, in2=(25e6, 100e6, 400e6), in3=(25e6, 100e6),
+                   p1=((0, MARGINS), (90, (0,)), (180, (0,)), (45, (0,))),
+                   c2=(((0, 0), (0, 0)), ((0, 90), (0, 0)), ((0, 0), (1e-2, 0)), ((0, 90), (1e-2, 0))),
+                   c3=(((0, 0, 0), (0, 0, 0)), ((0, 0, 90), (0, 0, 0)), ((0, 0, 90), (1e-2, 1e-4, 0)))),
+        light=dict(n1=7, n2=3, n3=3, awk3=False, in2=(100e6,), in3=(100e6,),
+                   p1=((0, (0, 1e-2)), (90, (0,))),
+                   c2=(((0, 0), (0, 0)), ((0, 90), (0, 0))),
+                   c3=(((0, 0, 90), (0, 0, 0)),)),
+        thorough=dict(n1=16, n2=5, n3=3, awk3=True, in2=None, in3=None,
+                      p1=((0, MARGINS), (90, MARGINS), (45, (0,)), (135, (0,)), (180, (0, 1e-2)), (270, (0,)), (30, (0,))),
+                      c2=tuple((ps, ms) for ps in ((0, 0), (0, 90), (180, 0), (90, 270))
+                               for ms in ((0, 0), (1e-4, 1e-4), (1e-2, 1e-2), (1e-2, 0), (0, 1e-2))),
+                      c3=tuple((ps, ms) for ps in ((0, 0, 0), (0, 0, 90), (180, 0, 0))
+                               for ms in ((0, 0, 0), (1e-2, 1e-2, 1e-2), (1e-2, 1e-4, 0)))))
+
+    def __init__(self, fam, pll, tier):
+        self.fam, self.tier = fam, tier
+        self.trion = fam.name == "TRIONPLL"
+        self.nmax = pll.nclkouts_max
+        if not self.trion:
+            self.inputs = [25e6, 100e6]
+            self.out1 = [100e6, 24.576e6, 400e6, 33.333e6]
+            self.out2, self.out3, self.outm = [100e6, 50e6], [100e6], [100e6]
+            return
+        first = pll._c20_platform.device == fam.DEVICES[fam.name][0]
+        z = self.z = self.Z[tier if (tier == "thorough" or first) else "light"]
+        L = fam.limits(pll)
+        in_rng = (float(L.pfd[0] * L.N[0]), float(L.pfd[1] * L.N[-1]))            # 10 MHz .. 1.5 GHz
+        lo_o, hi_o = float(L.pll[0] / L.C[-1]), float(L.pll[1] / L.C[0])           # fPLL_min/256 .. fPLL_max/1
+        self.inputs = uniq([in_rng[0] * (1 - 1e-3), in_rng[0]] + self.IN[tier] + [in_rng[1], in_rng[1] * (1 + 1e-3)])
+        cand = [f for f in OUT_ROUND if lo_o < f < hi_o]
+        awk = [f for f in OUT_AWKWARD if lo_o < f < hi_o]
+        typ = [f for f in OUT_TYPICAL if lo_o < f < hi_o]
+        ends = [lo_o * (1 - 1e-3), lo_o, hi_o, hi_o * (1 + 1e-3), float(L.vco[1]) / 3]
+        self.out1 = uniq(ends + awk[:max(1, z["n1"] // 5)] + spread(cand, z["n1"]))
+        self.out2 = uniq(awk[:1] + typ[:z["n2"]])
+        self.out3 = uniq((awk[:1] if z["awk3"] else []) + typ[:z["n3"]])
+        self.outm = []
+
+    def counts(self):
+        return [1, 2, 3] if self.trion else [1, 2, 3, 5]
+
+    def requests(self):
+        if not self.trion:
+            for fin in self.inputs:
+                for f in self.out1:
+                    for p in (0, 90, 135):
+                        yield Req(fin, [(f, p, 0)], ("nofb",))
+                        yield Req(fin, [(f, p, 0)], ("fb0",))
+                for fs in itertools.product(self.out2, repeat=2):
+                    for fl in ("nofb", "fb0", "fb1"):
+                        yield Req(fin, [(fs[0], 0, 0), (fs[1], 90, 1e-2)], (fl,))
+                yield Req(fin, [(100e6, 0, 0), (50e6, 0, 0), (25e6, 180, 0)], ("fb2",))
+                yield Req(fin, [(100e6, 0, 0), (50e6, 45, 0), (25e6, 0, 0), (200e6, 0, 0), (12.5e6, 0, 0)], ("fb4",))
+            yield Req(100e6, [(100e6, 0, 0)] * 6, ("nofb",))               # more outputs than the primitive has
+            return
+        z = self.z
+        lo_in, hi_in = self.inputs[1], self.inputs[-2]
+        for fin in self.inputs:
+            inside = lo_in <= fin <= hi_in
+            # one output (it is the feedback)
+            extra = [fin / 15, fin / 16, fin * 2, fin / 4 * 3] if inside else []
+            for k, f in enumerate(uniq(self.out1 + extra)):
+                for p, ms in z["p1"]:
+                    for m in ms:
+                        yield Req(fin, [(f, p, m)], ("fb0",) + (("sigclk",) if (k == 0 and p == 0 and m == 0) else ()))
+            if not inside:
+                continue
+            for f in self.out2[1:3]:                                       # no feedback output: pass-through
+                yield Req(fin, [(f, 0, 0)], ("nofb",))
+                yield Req(fin, [(f, 0, 0), (f / 2, 90, 0)], ("nofb",))
+            if z["in2"] is None or fin in z["in2"] or fin == lo_in:
+                for fs in itertools.product(self.out2, repeat=2):
+                    for ps, ms in z["c2"]:
+                        for fb in range(2):
+                            yield Req(fin, list(zip(fs, ps, ms)), ("fb%d" % fb,))
+            if z["in3"] is None or fin in z["in3"]:
+                for fs in itertools.product(self.out3, repeat=3):
+                    for ps, ms in z["c3"]:
+                        for fb in range(3):
+                            yield Req(fin, list(zip(fs, ps, ms)), ("fb%d" % fb,))
+
+
 def grid_for(fam, pll, tier):
+    if isinstance(fam, FE.Efinix):
+        return EfinixGrid(fam, pll, tier)
     if isinstance(fam, F.GateMate):
         return GateMateGrid(fam, pll, tier)
     if isinstance(fam, (F.NXOsc, F.GowinOsc)):
@@ -354,9 +452,9 @@ def witness_json(w):
         return None
     d = dict(input_div=_s(w["D"]), mult=_s(w["M"]), vco_or_source_hz=float(w["src"]), pfd_hz=float(w["pfd"]),
              out_dividers=[_s(p[2]) for p in w["picks"]])
-    for k in ("clkfb_div", "fb_div", "fb"):
+    for k in ("clkfb_div", "fb_div", "fb", "postdiv_O", "pll_hz"):
         if k in w:
-            d[k] = w[k] if isinstance(w[k], (int, str)) else _s(w[k])
+            d[k] = w[k] if isinstance(w[k], (int, str, float)) else _s(w[k])
     return d
 
 
@@ -390,14 +488,19 @@ def evaluate(fam, variant, req):
             res["kind"] = "config"
             return res
         res["kind"] = "config"
-        cover["returned"] = 1
+        if cfg.get("passthrough"):
+            # Efinix without a LiteX-side computation: the request goes to the vendor tool unchanged (judged by decode)
+            res["kind"] = "passthrough"
+            cover["passthrough"] = 1
+        else:
+            cover["returned"] = 1
         if not inr:
             cover["outside_accepted"] = 1
         D, M, ds, bad = fam.decode(pll, cfg, req)
         viol += [(a, b, None) for a, b in bad]
         if D is not None:
             dec = (D, M, ds)
-            viol += [(a, b, None) for a, b in verify(fam.sound_model(pll, req, dec), D, M, ds, WIDE)]
+            viol += [(a, b, None) for a, b in fam.ref_verify(pll, req, dec, WIDE)]
             try:
                 viol += [(a, b, None) for a, b in fam.check_instance(pll, cfg, req, dec)]
             except LookupError as e:
@@ -407,7 +510,7 @@ def evaluate(fam, variant, req):
                     cover[k] = cover.get(k, 0) + v
             if not viol and fam.ref_applicable(pll, req) is None:
                 # validity of the reference itself: what the helper found (and was verified) must be satisfiable
-                if search(fam.model(pll, req), WIDE) is None:
+                if fam.ref_search(pll, req, WIDE) is None:
                     raise MachineryError("%s%r %r: verified configuration %r but the reference search finds none" % (
                         fam.name, variant, req, res["config"]))
                 cover["ref_agrees_sat"] = 1
@@ -417,7 +520,7 @@ def evaluate(fam, variant, req):
     res["exc"] = "%s: %s" % (type(e).__name__, str(e)[:160])
     if r.stage in ("clkin", "clkout"):
         kind = "reject"
-    elif r.stage == "search" and isinstance(e, ValueError):
+    elif r.stage == "search" and isinstance(e, fam.NO_SOLUTION):
         kind = "search"
     else:
         kind = "crash"
@@ -430,7 +533,7 @@ def evaluate(fam, variant, req):
     if why is not None:
         cover["ref_not_applicable"] = 1
         return res
-    w = search(fam.model(pll, req), NARROW)
+    w = fam.ref_search(pll, req, NARROW)
     if w is None:
         cover["ref_agrees_unsat"] = 1
     else:
